@@ -43,6 +43,10 @@ func (p *ResetProcessor) UnmarshalYAML(value *yaml.Node) error {
 	if err != nil {
 		return err
 	}
+	if resolved == nil {
+		// the document root itself is tagged !reset: there is nothing left to decode
+		return nil
+	}
 	return resolved.Decode(p.target)
 }
 
